@@ -145,7 +145,7 @@ class Synth:
         c = ["^%s a." % tag, "\n"]
         pool = r.sample(SAFE, 2)
         term = {}
-        nkids = 0 if depth >= 4 or self.n > 9 else r.choice([0, 1, 1, 2, 2, 3])
+        nkids = 0 if depth >= 4 or self.n > 6 else r.choice([0, 1, 1, 2, 2, 3])
         for i in range(nkids):
             x = r.random()
             if x < 0.55:                                   # positional child
@@ -681,7 +681,15 @@ def run_docs(ctx, exe, exe_stream=None):
     # model listing
     model, model_err = None, None
     try:
-        model = model_listings(ctx, [d for _, d, _, _ in full])
+        # the model listing is the expensive part: in the quick tier on a prefix of every source
+        lim_s, lim_m = (28, 18) if quick else (10 ** 9, 10 ** 9)
+        pick = [n for n, (cid, d, src) in enumerate(items)
+                if src == "reg" or (src == "synth" and n < len(regression_docs()) + lim_s)
+                or (src == "mut" and n < n_playable + lim_m)]
+        part = model_listings(ctx, [full[n][1] for n in pick])
+        model = [None] * len(full)
+        for n, m in zip(pick, part):
+            model[n] = m
     except Exception as e:
         model_err = str(e)[-400:]
     timing["model_listing"] = round(time.time() - t0, 1)
@@ -717,7 +725,7 @@ def run_docs(ctx, exe, exe_stream=None):
                     outside.setdefault("+".join(sorted(hz)) + ":" + f["kind"], f)
                 else:
                     fails.append(f)
-            if bname == "default":
+            if bname == "default" and not hz:
                 eng_cases.append(dict(id=cid + "|E", story=json.dumps(d, ensure_ascii=False), script=[], fuel=FUEL,
                                       explore={"depth": 2, "max_paths": 14}, doc=d))
                 eng_cases += [dict({k: v for k, v in c.items() if k != "role"}, doc=d) for c in allc[lo:hi]
@@ -728,9 +736,9 @@ def run_docs(ctx, exe, exe_stream=None):
     eng = dict(compared=0, agree=0, skipped=0)
     try:
         import engine
-        lim = 40 if quick else 400
+        lim = 30 if quick else 400
         sel = eng_cases[:lim]
-        rs = engine.compare([{k: v for k, v in c.items() if k != "doc"} for c in sel], exe, shard=max(4, len(sel) // 12 + 1))
+        rs = engine.compare([{k: v for k, v in c.items() if k != "doc"} for c in sel], exe, shard=max(3, len(sel) // 12 + 1))
         for c, r in zip(sel, rs):
             if r["status"] == "agree":
                 eng["agree"] += 1; eng["compared"] += 1
